@@ -98,8 +98,8 @@ def run_unit(name, mod, only_props, tier):
                 raise Undecided("lost anchor: %s does not exist" % rel)
         return cache[rel]
 
-    def new_ob(fname, fn, clause):
-        ob = Obligation("%s.%s.%s" % (prop, label, fname), [prop], "polyvc", mod.FILE + "::" + fn, clause)
+    def new_ob(fname, fn, clause, props=None):
+        ob = Obligation("%s.%s.%s" % (prop, label, fname), props or [prop], "polyvc", mod.FILE + "::" + fn, clause)
         ob.unit_name = name
         obls.append(ob)
         return ob
@@ -163,14 +163,20 @@ def run_unit(name, mod, only_props, tier):
 
     # ---- boolean-valued functions
     for fname, c in getattr(mod, "PREDICATES", {}).items():
-        ob = new_ob(_slug(fname), " :: ".join(c["item"]), c["clause"])
+        ob = new_ob(_slug(fname), " :: ".join(c["item"]), c["clause"], c.get("props"))
         t0 = time.time()
         try:
             body, header = fn_body(read(c.get("file", mod.FILE)), c["item"])
             info["edits"].append("extract body of %s :: %s" % (c.get("file", mod.FILE), " :: ".join(c["item"])))
-            env = mod.make_env()
+            env = c["env"]() if "env" in c else mod.make_env()
             loc = c["inputs"]()
             out, _ = pv.run_body(env, body, loc)
+            if isinstance(out, pv.Opt):
+                # CtOption-valued decoder: the condition formula is checked; the carried value must be
+                # the one named by the contract
+                if "value" in c and not c["value"](out.value, loc):
+                    raise pv.Unsupported("CtOption carries an unexpected value")
+                out = out.cond
             if not isinstance(out, tuple):
                 raise pv.Unsupported("result is not a Choice formula")
             spec = c["spec"](loc)
